@@ -513,6 +513,8 @@ class Textgrid:
     def renameTier(self, oldName: str, newName: str) -> None:
         oldTier = self.getTier(oldName)
         tierIndex = self.tierNames.index(oldName)
+        if newName != oldName and newName in self.tierNames:
+            raise errors.TierNameExistsError("Tier name already in tier")
         self.removeTier(oldName)
         self.addTier(oldTier.new(newName, oldTier.entries), tierIndex)
 
@@ -526,8 +528,13 @@ class Textgrid:
         reportingMode: Literal["silence", "warning", "error"] = "warning",
     ) -> None:
         tierIndex = self.tierNames.index(name)
-        self.removeTier(name)
-        self.addTier(newTier, tierIndex, reportingMode)
+        oldTier = self.removeTier(name)
+        try:
+            self.addTier(newTier, tierIndex, reportingMode)
+        except Exception:
+            # Leave the textgrid as it was
+            self.addTier(oldTier, tierIndex, constants.ErrorReportingMode.SILENCE)
+            raise
 
     def validate(
         self, reportingMode: Literal["silence", "warning", "error"] = "warning"
